@@ -5,6 +5,11 @@ import os
 ROOT = os.path.dirname(os.path.dirname(os.path.abspath(__file__)))
 
 CHECKS = {
+ "C10": dict(
+    text="Partial. Theorems C10_find_sound (whatever the backtracking search returns is a registered route whose pattern matches the path, parameters/wildcards bound to the prescribed segments in path order), C10_find_complete (if any registered route matches, a route is found: 404/405 only when none matches), C10_status (exactly one of handler / 405 with other matching methods / not found), for every table and path. The choice among several matching routes (precedence fixed>param>optional>wildcard) is decided by an independent Python oracle on the implementation's answers and by the model/implementation correspondence through a live Rest::Router endpoint, not yet by a theorem.",
+    note="Closed under the global context. The trie is modelled as the set of (remaining pattern, handler) entries with child maps as derivatives; tables in the correspondence keep one parameter/optional name per tree position (the C++ iterates same-kind children in hash order; see DESIGN.md F2). Trusted: harness/h_router.cc (live endpoint + raw socket), Python spec oracle.",
+    technique="Coq proof (soundness + completeness of backtracking search w.r.t. a pattern-matching spec) + live-endpoint differential correspondence + independent precedence oracle",
+    design="§2 C10"),
  "C01": dict(
     text="Full (parser level). Theorems C01_segmentation_independent (for every typed-header parser, both parser kinds, all byte strings and all segmentations: need-more-data for the first j reads, then exactly the outcome, message and framing state of the one-shot parse), C01_incremental_state_is_oneshot_state, C01_settled_is_stable, C01_effects_replay_idempotent, proved about a model that keeps the code's structure (restartable steps whose mutations are not rolled back; a body state machine with partial consumption). Tied to /repo by running extracted model and real RequestParser/ResponseParser (ASan+UBSan) on the same segmentations - every single cut and byte-by-byte for each generated message - and by a direct oracle (segmented == whole, Done exactly at the last byte) on the implementation.",
     note="Closed under the global context. Section parameters (arbitrary deterministic functions, not axioms): typed_other (registry parsers other than Content-Length), set_cookie (Cookie::fromRaw). Completion-exactly-at-last-byte for well-formed messages is checked by the oracle on generated messages, not proved (no rendering spec yet). Trusted: extraction, driver, harness/h_parser.cc, generators.",
